@@ -338,7 +338,9 @@ func sameResult(a, b loadResult) bool {
 	if (a.err == nil) != (b.err == nil) {
 		return false
 	}
-	return reflect.DeepEqual(a.cfg, b.cfg)
+	// reflect.DeepEqual says NaN != NaN even for one and the same Load repeated; the structural
+	// rendering (which prints NaN as NaN and is otherwise as fine as DeepEqual) decides then
+	return reflect.DeepEqual(a.cfg, b.cfg) || fingerprintResult(a.cfg, a.err) == fingerprintResult(b.cfg, b.err)
 }
 
 // ---------- value generators ----------
@@ -757,6 +759,9 @@ func main() {
 
 	// ===== 5b. histories: several Loads in this one process =====
 	genHistoryCases(run, r, opts)
+
+	// ===== 5c. degenerate values of every option from every source =====
+	genDegenerateCases(run, r, opts)
 
 	// ===== 6. parseKVSlice, lex and the library models =====
 	genKVCases(run, r)
@@ -1387,6 +1392,140 @@ func genHistoryCases(run *vh.Run, r *rand.Rand, opts []option) {
 			run.Violation(id, "config.Load panicked in a sequence of well-formed Loads", sample)
 		}
 	}
+}
+
+// ---------- degenerate values ----------
+var degenerateGeneric = []string{"", " ", "  \t ", ";", ",", ";;,", " ; ", "=", ";=", `""`, `''`, `"`, "'", `" "`, ",;=,", "\\"}
+var degenerateBytes = []string{strings.Repeat("a", 4096), "a\x00b", "\xff\xfe\x80", "é世 ", strings.Repeat(";", 300), "\x00"}
+
+func degenerateTyped(kind string) []string {
+	switch kind {
+	case "bool":
+		return []string{"yes", "2", "tru", "TRUE ", "-1"}
+	case "int", "int64":
+		return []string{"99999999999999999999", "-9223372036854775808", "-1", "0", "1e3", "0x", "1_000", "12x", "+", "١٢"}
+	case "uint", "uint64":
+		return []string{"-1", "18446744073709551616", "0", "1.0", "0b2", "+5"}
+	case "float64":
+		return []string{"NaN", "Inf", "-Inf", "1e999", "-0", "1e-999", "0x1p-2", "1,5", "."}
+	case "duration":
+		return []string{"1", "-5s", "1y", "9999999h", "1h-1m", "0", ".s", "1e3s", "5 s"}
+	case "floatslice":
+		return []string{"1,,x", ",", "NaN,Inf", "1e999", "1;2", " , , "}
+	case "stringslice":
+		return []string{",", " , ,", ",,a,,"}
+	}
+	return nil
+}
+
+func outcomeOf(res loadResult) int {
+	switch {
+	case res.panicked:
+		return 3
+	case res.err != nil:
+		return 1
+	}
+	return 0
+}
+
+func genDegenerateCases(run *vh.Run, r *rand.Rand, opts []option) {
+	childRuns := 0
+	for oi, o := range opts {
+		if o.Name == "cfg" || o.Name == "v" || o.Name == "version" || !isASCII(o.Name) || strings.ContainsAny(o.Name, "= \t") {
+			continue
+		}
+		var values []string
+		typed := degenerateTyped(o.Kind)
+		switch {
+		case run.Thorough():
+			values = append(append(append(values, degenerateGeneric...), degenerateBytes...), typed...)
+		case o.Kind == "string":
+			values = append(values, degenerateGeneric...)
+			values = append(values, degenerateBytes[oi%len(degenerateBytes)])
+		default:
+			values = append(values, "", " ", ";", `""`, degenerateBytes[oi%len(degenerateBytes)])
+			for j := 0; j < 4 && j < len(typed); j++ {
+				values = append(values, typed[(oi+j)%len(typed)])
+			}
+		}
+		seen := map[string]bool{}
+		for _, v := range values {
+			if seen[v] {
+				continue
+			}
+			seen[v] = true
+			wf := wellFormed(o.Kind, v)
+			var srcs, outs, eqs, coqArrs []string
+			var sampleOuts []int
+			var arrs []arrangement
+			var first *loadResult
+			anyPanic := ""
+			for k := 1; k <= 4; k++ {
+				a := arrangement{}
+				place(r, &a, o, k, v)
+				out := 0
+				var res loadResult
+				if k == 1 && !wf {
+					// flag.ExitOnError: the process exits; observe it in a child
+					code, panicked, text := runChild(append([]string{"fabio"}, a.Args...), nil)
+					childRuns++
+					switch {
+					case panicked:
+						out = 3
+						anyPanic = text
+					case code == 2:
+						out = 2
+					case code == 0 && strings.Contains(text, "C15-CHILD config"):
+						out = 0
+					case code == 0:
+						out = 1
+					default:
+						out = 3
+						anyPanic = fmt.Sprintf("child exit %d: %s", code, text)
+					}
+				} else {
+					var ok bool
+					res, ok = runLoad(a)
+					if !ok {
+						run.Exclude("degenerate value not expressible in the properties file syntax (source dropped from the case)")
+						continue
+					}
+					out = outcomeOf(res)
+					if res.panicked {
+						anyPanic = fmt.Sprint(res.pval)
+					}
+				}
+				eq := true
+				if out == 0 && !(k == 1 && !wf) {
+					if first == nil {
+						cp := res
+						first = &cp
+					} else {
+						eq = sameResult(*first, res)
+					}
+				}
+				srcs = append(srcs, vh.N(k))
+				outs = append(outs, vh.N(out))
+				sampleOuts = append(sampleOuts, out)
+				eqs = append(eqs, vh.Bool(eq))
+				arrs = append(arrs, a)
+				coqArrs = append(coqArrs, a.coq())
+			}
+			shown := v
+			if len(shown) > 60 {
+				shown = shown[:60] + fmt.Sprintf("...(%d bytes)", len(v))
+			}
+			class := "degenerate-" + o.Kind
+			id := run.Add(class, vh.App("CDegenerate", vh.HxS(o.Name), vh.Bool(o.Kind == "bool"), vh.Bool(wf), vh.HxS(v), vh.List(srcs), vh.List(coqArrs), vh.List(outs), vh.List(eqs)),
+				map[string]interface{}{"option": o.Name, "kind": o.Kind, "value": shown, "well_formed_for_type": wf, "sources": srcs, "outcomes(0 cfg,1 err,2 usage exit,3 panic)": sampleOuts, "equal_configs": eqs})
+			_ = id
+			_ = anyPanic
+			if o.Name == "ui.addr" && utf8.ValidString(v) && len(v) <= 400 && len(sampleOuts) > 0 {
+				run.Add("degenerate-ui-addr-block", vh.App("CUiAddr", runes([]rune(v)), vh.N(sampleOuts[0])), map[string]interface{}{"ui.addr": shown, "outcome": sampleOuts[0]})
+			}
+		}
+	}
+	run.Notes["degenerate_child_runs"] = childRuns
 }
 
 // ---------- kvslice ----------
